@@ -363,6 +363,9 @@ pub fn c11_check(cfg: &WCfg, p: &Probe, cell: Option<&Cell>, sent: &Sent) -> Vec
     if usize::from(be(&l4, 4)) != l4.len() { bad("c11-udp-length", be(&l4, 4).to_string()); }
     let sum = ones_sum(&[&pseudo(cfg.src, cfg.dst, 17, l4.len()), &l4]);
     if sum != 0xffff { bad("c11-udp-checksum", format!("{sum:04x}")); }
+    // observation, not a failure: RFC 8200 §8.1 wants a computed 0x0000 sent as 0xFFFF over IPv6
+    // (the code sends 0x0000; with Paris the field is the sequence by design)
+    if cfg.v6 && be(&l4, 6) == 0 { bad("obs-udp6-zero-checksum", String::new()); }
     if !cfg.v6 && to_port != p.dest_port.0 { bad("c11-udp-port", to_port.to_string()); }
     if paris {
         if be(&l4, 6) != p.sequence.0 { bad("c11-seq-paris", be(&l4, 6).to_string()); }
